@@ -32,6 +32,7 @@ type vC16Gate struct {
 	key     int    // operation index (start) or instance number
 	ch      chan struct{}
 	verdict bool // load: failed; tryclose: busy
+	fail    bool // tryclose: the object reports an error and stays open
 }
 
 type vC16World struct {
@@ -44,10 +45,14 @@ type vC16World struct {
 
 // wait blocks the calling goroutine at a gate until the controller releases it; returns the verdict it was given
 func (w *vC16World) wait(kind string, key int) bool {
+	return w.waitGate(kind, key).verdict
+}
+
+func (w *vC16World) waitGate(kind string, key int) *vC16Gate {
 	g := &vC16Gate{kind: kind, key: key, ch: make(chan struct{})}
 	rt.Atomic(func() { w.waiting = append(w.waiting, g) })
 	<-g.ch
-	return g.verdict
+	return g
 }
 
 // live: loading or loaded, and not yet closed
@@ -81,7 +86,11 @@ func (o *vC16Obj) Close() error {
 }
 
 func (o *vC16Obj) TryClose(objectTTL time.Duration) (bool, error) {
-	if busy := o.w.wait("tryclose", o.inst.n); busy {
+	g := o.w.waitGate("tryclose", o.inst.n)
+	if g.fail {
+		return false, errors.New("verif: try-close failed")
+	}
+	if g.verdict {
 		return false, nil
 	}
 	o.closeNow()
@@ -155,6 +164,7 @@ func (w *vC16World) drive(maxRounds int) (drained bool) {
 		type option struct {
 			g       *vC16Gate
 			verdict bool
+			fail    bool
 		}
 		var opts []option
 		rt.Atomic(func() {
@@ -166,9 +176,12 @@ func (w *vC16World) drive(maxRounds int) (drained bool) {
 				}
 			}
 			for _, g := range gs {
-				opts = append(opts, option{g, false})
+				opts = append(opts, option{g, false, false})
 				if g.kind == "load" || g.kind == "tryclose" {
-					opts = append(opts, option{g, true})
+					opts = append(opts, option{g, true, false})
+				}
+				if g.kind == "tryclose" && rt.Param("tcerr", 1) == 1 {
+					opts = append(opts, option{g, false, true})
 				}
 			}
 		})
@@ -184,6 +197,7 @@ func (w *vC16World) drive(maxRounds int) (drained bool) {
 				}
 			}
 			o.g.verdict = o.verdict
+			o.g.fail = o.fail
 		})
 		close(o.g.ch)
 	}
